@@ -22,13 +22,14 @@ for f in ("demo.py", "REPORT.md"):
     if os.path.exists(f"{wt}/{f}"):
         open(f"{dst}/{f}", "w").write(open(f"{wt}/{f}").read())
 env = f"PYTHONPATH={wt}/src PYTHONDONTWRITEBYTECODE=1"
-tests = sh(f"cd {wt} && {env} /venv/bin/python -m pytest -q -p no:cacheprovider --timeout=900 tests/test_polars_table.py tests/test_core.py tests/test_version.py 2>&1 | tail -3")
-tests_ok = " 1 failed" in tests.stdout and "test_duckdb_execution" in sh(f"cd {wt} && {env} /venv/bin/python -m pytest -q -p no:cacheprovider tests/test_polars_table.py tests/test_core.py tests/test_version.py 2>&1 | grep FAILED").stdout and "passed" in tests.stdout
+tests = sh(f"sh /verif/bin/baseline.sh {wt}")
+tests_ok = tests.returncode == 0 and "64/64" in tests.stdout
 demo_with = sh(f"cd {wt} && {env} /venv/bin/python demo.py")
-sh(f"git -C {wt} stash -q")
+# (no `git stash`: the stash is shared between all worktrees of a repository)
+sh(f"cd {wt} && git apply -R {dst}/patch.diff")
 demo_without = sh(f"cd {wt} && {env} /venv/bin/python demo.py")
-sh(f"git -C {wt} stash pop -q")
-print("tests:", tests.stdout.strip().splitlines()[-1] if tests.stdout.strip() else tests.stderr[-200:])
+sh(f"cd {wt} && git apply {dst}/patch.diff")
+print("tests:", tests.stdout.strip().splitlines()[0] if tests.stdout.strip() else tests.stderr[-200:])
 print("demo with change: exit", demo_with.returncode, "| without: exit", demo_without.returncode)
 # run the checks against /repo with the patch applied
 assert sh("git -C /repo status --porcelain").stdout.strip() == "", "/repo is not clean"
